@@ -507,9 +507,9 @@ func build(r *rng) *world {
 	}
 
 	// ---- endpoints
-	nWl := r.intn(5)
-	if r.chance(10) {
-		nWl = 6 + r.intn(6)
+	nWl := r.intn(4)
+	if r.chance(8) {
+		nWl = 5 + r.intn(5)
 	}
 	seen := map[string]bool{}
 	for i := 0; i < nWl; i++ {
@@ -524,14 +524,14 @@ func build(r *rng) *world {
 	}
 	sort.Strings(w.wlNames)
 	for _, n := range []string{"eth0", "eth1", "ens5", "bond0"} {
-		if r.chance(40) && !hasPrefixAny(n, g.prefixes) {
+		if r.chance(30) && !hasPrefixAny(n, g.prefixes) {
 			w.hepNames = append(w.hepNames, n)
 		}
 	}
 	w.wildcard = r.chance(35)
 
 	// ---- policies: one pool per table (a policy's chain lives in one table)
-	normal := genPolicies(r, ver, 1+r.intn(3), "n", false, false, append(append([]fsEntry{}, g.fsIn...), g.fsOut...))
+	normal := genPolicies(r, ver, 1+r.intn(2), "n", false, false, append(append([]fsEntry{}, g.fsIn...), g.fsOut...))
 	untracked := genPolicies(r, ver, 1+r.intn(2), "u", true, false, append(append([]fsEntry{}, g.fsIn...), g.fsOut...))
 	prednat := genPolicies(r, ver, 1+r.intn(2), "d", false, true, g.fsIn)
 	profIDs := []string{}
@@ -842,7 +842,7 @@ func (w *world) probes(r *rng) []*pkt {
 	return out
 }
 
-// the two classes of known deviations (Spec.v: pre_policy_exempt, wildcard_hep_accepts), decided on the INPUT
+// the two classes of known deviations (Spec.v: pre_policy_exempt, est_accepted_early), decided on the INPUT
 func (w *world) classOf(p *pkt) string {
 	g := w.g
 	if !hasPrefixAny(p.in, g.prefixes) {
@@ -861,14 +861,14 @@ func (w *world) classOf(p *pkt) string {
 			os = true
 		}
 	}
-	est := !w.known(p.in) && (p.ct == "CtEstablished" || p.ct == "CtRelated") && w.wildcard
+	est := !w.known(p.in) && (p.ct == "CtEstablished" || p.ct == "CtRelated")
 	switch {
 	case (nd || os) && est:
 		return "both" // never emitted
 	case nd || os:
 		return "pre-policy"
 	case est:
-		return "wildcard-est"
+		return "est-early"
 	}
 	return ""
 }
@@ -923,7 +923,7 @@ func main() {
 			fmt.Sprintf("prefixes:%d", len(g.prefixes)), fmt.Sprintf("wildcard-hep:%v", w.wildcard),
 			fmt.Sprintf("workloads:%d", min(len(w.wlNames), 6)), fmt.Sprintf("heps:%d", len(w.hepNames)),
 			fmt.Sprintf("failsafe-in:%d", min(len(g.fsIn), 8)), fmt.Sprintf("failsafe-out:%d", min(len(g.fsOut), 8))}
-		for _, cl := range []string{"", "pre-policy", "wildcard-est"} {
+		for _, cl := range []string{"", "pre-policy", "est-early"} {
 			ps := byClass[cl]
 			if len(ps) == 0 || (cl != "" && i%4 != 0) {
 				continue // the two known deviations are exercised on every 4th configuration only
